@@ -243,9 +243,10 @@ def cmd_check(args):
         'wall_s': round(wall, 2),
         'violations': len(unlisted),
     }
-    os.makedirs(os.path.join(VERIF, 'evidence'), exist_ok=True)
-    with open(os.path.join(VERIF, 'evidence', prop + '.json'), 'w') as f:
-        json.dump(ev, f, indent=1, sort_keys=True, default=str)
+    if not args.noevidence:
+        os.makedirs(os.path.join(VERIF, 'evidence'), exist_ok=True)
+        with open(os.path.join(VERIF, 'evidence', prop + '.json'), 'w') as f:
+            json.dump(ev, f, indent=1, sort_keys=True, default=str)
     print('%s: %d runs (%d non-trivial, %d distinct shapes) in %.1fs; violations=%d known_hits=%s other=%s' % (
         prop, agg['evaluations'], agg['nontrivial'], distinct, wall, len(unlisted),
         known_hits, agg['other']))
@@ -281,6 +282,8 @@ def main(argv=None):
     c.add_argument('--seed', type=int, default=None)
     c.add_argument('--workers', type=int, default=None)
     c.add_argument('--shrink', type=int, default=400)
+    c.add_argument('--noevidence', action='store_true',
+                   help='development aid: do not rewrite evidence/ (used by selftests against scratch copies)')
     c.add_argument('--want', default=None,
                    help='development aid: only report violations whose rule:disc contains this')
     c.add_argument('--all', action='store_true',
